@@ -38,3 +38,12 @@ PROPS['C10'] = dict(
     assumptions=[],
     domain=[],
 )
+
+PROPS['C18'] = dict(
+    title='Word matching is a longest common subsequence; edited words are its complement',
+    groups=[dict(template='c18_match_words.rs')],
+    claim='',
+    not_covered=[],
+    assumptions=[],
+    domain=[],
+)
